@@ -487,7 +487,7 @@ def _lin_eval(e, env):
     return None
 
 
-@rule('MOVE-KEEPS-HISTORY', ['C15', 'C01'], floor=1)
+@rule('MOVE-KEEPS-HISTORY', ['C15', 'C01', 'C07'], floor=1)
 def move_keeps_history(ctx):
     """When the LZ encoder window is moved, the bytes kept in front of the read position are the history matches may
     reach into: `extend_match` and the match finders read `buf[read_pos - dist ..]` without bounds checks (the
@@ -516,14 +516,20 @@ def move_keeps_history(ctx):
         ctx.violation(key, f.loc(0), 'cannot find `(..) & -2^k` (the aligned move offset): anchor lost (fail closed)')
         return
     b, si, x, mask = cands[0]
-    def at(rp, kb):
-        return _lin_eval(x, lambda name: {'read_pos': rp, 'keep_size_before': kb}.get(name))
-    c0, c_rp, c_kb = at(0, 0), at(1, 0), at(0, 1)
-    if None in (c0, c_rp, c_kb):
-        ctx.violation(key, f.loc(b, si), 'the masked expression %s is not linear in read_pos and keep_size_before: not decided (fail closed)' % expr_str(x)[:80])
+    def at(rp, kb, pd=0):
+        return _lin_eval(x, lambda name: {'read_pos': rp, 'keep_size_before': kb, 'pending_size': pd}.get(name))
+    c0, c_rp, c_kb, c_pd = at(0, 0), at(1, 0), at(0, 1), at(0, 0, 1)
+    if None in (c0, c_rp, c_kb, c_pd):
+        ctx.violation(key, f.loc(b, si), 'the masked expression %s is not linear in read_pos, keep_size_before and pending_size: not decided (fail closed)' % expr_str(x)[:80])
         return
-    if c_rp - c0 == 1 and c_kb - c0 == -1 and c0 <= 1:
-        ctx.ok(key, f.loc(b, si), 'move_offset = (read_pos %+d - keep_size_before) & %d: rounded down, at least keep_size_before - 1 bytes stay in front of read_pos' % (c0, mask))
+    # pending positions are replayed from read_pos - pending_size: their history must survive the move too, so the pending
+    # count has to be subtracted as well (coefficient -1); a positive coefficient would keep less
+    if c_rp - c0 == 1 and c_kb - c0 == -1 and c0 <= 1 and c_pd - c0 == 0:
+        ctx.violation(key, f.loc(b, si), 'move_offset = (read_pos %+d - keep_size_before) & %d ignores the pending positions: they are replayed later from '
+                      'read_pos - pending_size, and after a flush shortly before the window is full the replayed positions have less than '
+                      'keep_size_before bytes of history (the match finder follows a maximum-distance candidate in front of the buffer)' % (c0, mask))
+    elif c_rp - c0 == 1 and c_kb - c0 == -1 and c0 <= 1 and c_pd - c0 == -1:
+        ctx.ok(key, f.loc(b, si), 'move_offset = (read_pos %+d - pending_size - keep_size_before) & %d: rounded down, keep_size_before - 1 bytes stay in front of the first pending position' % (c0, mask))
     else:
         ctx.violation(key, f.loc(b, si), 'move_offset = (%d*read_pos %+d %+d*keep_size_before) & %d can exceed read_pos + 1 - keep_size_before: fewer than '
                       'keep_size_before bytes of history are kept, and the unchecked reads of extend_match / the match finders at distance close to the '
@@ -640,3 +646,45 @@ def reset_context_byte(ctx):
     else:
         ctx.violation(key, r.loc(0), 'get_byte(0) at pos 0 reads buf[%d*buf_size %+d] (the byte "before" the window), but reset does not store into that cell: '
                       'after a dictionary reset in the middle of a stream the stale last byte of the old window selects the first literal context' % wrap)
+
+
+# --------------------------------------------------------------------------- MODE-RESERVE-FLOOR
+
+@rule('MODE-RESERVE-FLOOR', ['C15', 'C01'], floor=2)
+def mode_reserve_floor(ctx):
+    """The history an encoder mode needs in front of the read position (EXTRA_SIZE_BEFORE: 1 byte for the fast mode, so
+    that a match at the maximum distance still has its predecessor byte; the parse depth for the normal mode) is a
+    minimum: `LZMAEncoder::new` receives the caller's extra size (what LZMA2 needs to re-read a chunk) and must hand
+    the LZ encoder `max(caller's, mode's)` in each mode. Passing the caller's value alone keeps exactly dict_size bytes
+    for the LZ formats whose extra size is 0: after a window move a repeat at the maximum distance makes
+    `extend_match` start in front of the buffer."""
+    F = ctx.facts
+    fs = [f for f in F.fns if f.key == 'LZMAEncoder::new']
+    if not fs:
+        ctx.anchor_missing('LZMAEncoder::new')
+        return
+    f = fs[0]
+    prov = Prov(f)
+    def const(suffix):
+        c = [v for p, v in F.consts.items() if p.endswith(suffix)]
+        return c[0]['val'] if len(c) == 1 and isinstance(c[0]['val'], int) else None
+    need = {'FastEncoderMode': const('FastEncoderMode::EXTRA_SIZE_BEFORE'), 'NormalEncoderMode': const('NormalEncoderMode::EXTRA_SIZE_BEFORE')}
+    maxes = []
+    for bi, t, c in f.calls():
+        if c.name == 'max' and len(t['args']) == 2:
+            ops = [prov.operand(a, 0, '%d:T' % bi) for a in t['args']]
+            cs = [o[2] for o in ops if o[0] == 'const' and isinstance(o[2], int)]
+            ps = [o for o in ops if any(x[0] == 'param' for x in expr_walk(o))]
+            if cs and ps:
+                maxes.append((bi, cs[0]))
+    for mode, val in need.items():
+        key = 'LZMAEncoder::new:%s-extra-size-before-is-a-minimum' % mode
+        if val is None:
+            ctx.violation(key, f.loc(0), 'cannot find %s::EXTRA_SIZE_BEFORE (anchor lost, fail closed)' % mode)
+            continue
+        hit = [bi for bi, cv in maxes if cv == val]
+        if hit:
+            ctx.ok(key, f.loc(hit[0]), 'extra_size_before.max(%d)' % val)
+        else:
+            ctx.violation(key, f.loc(0), 'the caller\'s extra_size_before is passed on without `max(.., %s::EXTRA_SIZE_BEFORE = %d)`: the LZ encoder keeps less '
+                          'history than this mode reads (a maximum-distance repeat right after a window move starts in front of the buffer)' % (mode, val))
